@@ -284,4 +284,15 @@ ParsePunct(e) == LET r == CPunct(e, 0) IN IF r.ok THEN [r |-> "ok", v |-> r.v] E
 AllSlicesOK(e, run) == \A i \in 1..Len(run.errs) : SliceOK(Len(e), run.errs[i])
 \* every successful consume step advances the cursor (termination of build_mid_result)
 Progress(run) == \A i \in 1..Len(run.steps) : run.steps[i].to > run.steps[i].from
-=============================================================================
+
+\* A decimal with 16 or more significant digits need not survive text -> f64 -> text; the model keeps decimal strings, so such
+\* positions of the truth and budget lists are left out of the value comparison (shorter decimals are compared exactly).
+Sig(str) == LET ds == SelectSeq(Chars(str), LAMBDA c : c \in {"0", "1", "2", "3", "4", "5", "6", "7", "8", "9"})
+                nz == {i \in 1..Len(ds) : ds[i] # "0"}
+            IN IF nz = {} THEN 0 ELSE Len(ds) - (CHOOSE i \in nz : \A j \in nz : i <= j) + 1
+MaskNums(q, ref) == IF Len(q) # Len(ref) THEN q ELSE [i \in 1..Len(q) |-> IF Sig(ref[i]) >= 16 THEN "<long>" ELSE q[i]]
+MaskN(n, ref) == IF n.kind # ref.kind THEN n
+                 ELSE CASE n.kind = "term" -> n
+                        [] n.kind = "sentence" -> [n EXCEPT !.v.tr = MaskNums(@, ref.v.tr)]
+                        [] n.kind = "task" -> [n EXCEPT !.v.b = MaskNums(@, ref.v.b), !.v.s.tr = MaskNums(@, ref.v.s.tr)]
+=========================================================================
